@@ -53,7 +53,8 @@ type frame struct {
 	caller           *frame
 	fn               *ssa.Function
 	block, prevBlock *ssa.BasicBlock
-	env              map[ssa.Value]value // dynamic values of SSA variables
+	env              []value // dynamic values of SSA variables, indexed by fnInfo.idx
+	idx              map[ssa.Value]int32
 	locals           []value
 	defers           *deferred
 	result           value
@@ -76,7 +77,8 @@ func (fr *frame) get(key ssa.Value) value {
 	case *ssa.Global:
 		return fr.i.globalAddr(key)
 	}
-	if r, ok := fr.env[key]; ok {
+	if k, ok := fr.idx[key]; ok {
+		r := fr.env[k]
 		if p, ok := r.(poison); ok {
 			panic(pathEnd{peUnsupported, "use of value from failed initialiser: " + p.why})
 		}
@@ -154,12 +156,14 @@ func (i *interpreter) initPackage(pkg *ssa.Package) {
 // cannot model are skipped and their results poisoned.
 func (i *interpreter) runInit(pkg *ssa.Package, fn *ssa.Function) {
 	fr := &frame{i: i, fn: fn}
-	fr.env = make(map[ssa.Value]value)
+	info := infoOf(fn)
+	fr.idx = info.idx
+	fr.env = make([]value, info.n)
 	fr.block = fn.Blocks[0]
 	fr.locals = make([]value, len(fn.Locals))
 	for k, l := range fn.Locals {
 		fr.locals[k] = zero(mustDeref(l.Type()))
-		fr.env[l] = &fr.locals[k]
+		fr.set(l, &fr.locals[k])
 	}
 	for fr.block != nil {
 		nonPhis := executePhis(fr)
@@ -188,7 +192,7 @@ func (i *interpreter) initInstr(pkg *ssa.Package, fr *frame, instr ssa.Instructi
 			why := describePanic(r)
 			i.initNotes = append(i.initNotes, fmt.Sprintf("init %s: skipped %s: %s", pkg.Pkg.Path(), shortInstr(instr), why))
 			if v, ok := instr.(ssa.Value); ok {
-				fr.env[v] = poison{why: pkg.Pkg.Path() + ": " + why}
+				fr.set(v, poison{why: pkg.Pkg.Path() + ": " + why})
 			}
 			if st, ok := instr.(*ssa.Store); ok {
 				if g, ok := st.Addr.(*ssa.Global); ok {
@@ -285,39 +289,39 @@ func visitInstr(fr *frame, instr ssa.Instruction) continuation {
 		// no-op
 
 	case *ssa.UnOp:
-		fr.env[instr] = unop(instr, fr.get(instr.X))
+		fr.set(instr, unop(instr, fr.get(instr.X)))
 
 	case *ssa.BinOp:
-		fr.env[instr] = binop(instr.Op, instr.X.Type(), fr.get(instr.X), fr.get(instr.Y))
+		fr.set(instr, binop(instr.Op, instr.X.Type(), fr.get(instr.X), fr.get(instr.Y)))
 
 	case *ssa.Call:
 		fn, args := prepareCall(fr, &instr.Call)
 		fr.pos = instr.Pos()
-		fr.env[instr] = call(fr.i, fr, instr.Pos(), fn, args)
+		fr.set(instr, call(fr.i, fr, instr.Pos(), fn, args))
 
 	case *ssa.ChangeInterface:
-		fr.env[instr] = fr.get(instr.X)
+		fr.set(instr, fr.get(instr.X))
 
 	case *ssa.ChangeType:
-		fr.env[instr] = fr.get(instr.X) // (can't fail)
+		fr.set(instr, fr.get(instr.X)) // (cannot fail)
 
 	case *ssa.Convert:
-		fr.env[instr] = conv(instr.Type(), instr.X.Type(), fr.get(instr.X))
+		fr.set(instr, conv(instr.Type(), instr.X.Type(), fr.get(instr.X)))
 
 	case *ssa.MultiConvert:
-		fr.env[instr] = conv(instr.Type(), instr.X.Type(), fr.get(instr.X))
+		fr.set(instr, conv(instr.Type(), instr.X.Type(), fr.get(instr.X)))
 
 	case *ssa.SliceToArrayPointer:
-		fr.env[instr] = sliceToArrayPointer(instr.Type(), instr.X.Type(), fr.get(instr.X))
+		fr.set(instr, sliceToArrayPointer(instr.Type(), instr.X.Type(), fr.get(instr.X)))
 
 	case *ssa.MakeInterface:
-		fr.env[instr] = iface{t: instr.X.Type(), v: fr.get(instr.X)}
+		fr.set(instr, iface{t: instr.X.Type(), v: fr.get(instr.X)})
 
 	case *ssa.Extract:
-		fr.env[instr] = fr.get(instr.Tuple).(tuple)[instr.Index]
+		fr.set(instr, fr.get(instr.Tuple).(tuple)[instr.Index])
 
 	case *ssa.Slice:
-		fr.env[instr] = slice(fr.get(instr.X), fr.get(instr.Low), fr.get(instr.High), fr.get(instr.Max))
+		fr.set(instr, slice(fr.get(instr.X), fr.get(instr.Low), fr.get(instr.High), fr.get(instr.Max)))
 
 	case *ssa.Return:
 		switch len(instr.Results) {
@@ -380,17 +384,17 @@ func visitInstr(fr *frame, instr ssa.Instruction) continuation {
 		spawn(fr, instr, fn, args)
 
 	case *ssa.MakeChan:
-		fr.env[instr] = make(chan value, asInt64(fr.get(instr.Size)))
+		fr.set(instr, make(chan value, asInt64(fr.get(instr.Size))))
 
 	case *ssa.Alloc:
 		var addr *value
 		if instr.Heap {
 			// new
 			addr = new(value)
-			fr.env[instr] = addr
+			fr.set(instr, addr)
 		} else {
 			// local
-			addr = fr.env[instr].(*value)
+			addr = fr.env[fr.idx[instr]].(*value)
 		}
 		*addr = zero(mustDeref(instr.Type()))
 
@@ -405,39 +409,39 @@ func visitInstr(fr *frame, instr ssa.Instruction) continuation {
 		for i := range slice {
 			slice[i] = zero(tElt)
 		}
-		fr.env[instr] = slice[:l]
+		fr.set(instr, slice[:l])
 
 	case *ssa.MakeMap:
-		fr.env[instr] = makeMap(instr.Type().Underlying().(*types.Map).Key(), 0)
+		fr.set(instr, makeMap(instr.Type().Underlying().(*types.Map).Key(), 0))
 
 	case *ssa.Range:
-		fr.env[instr] = rangeIter(fr.get(instr.X), instr.X.Type())
+		fr.set(instr, rangeIter(fr.get(instr.X), instr.X.Type()))
 
 	case *ssa.Next:
-		fr.env[instr] = fr.get(instr.Iter).(iter).next()
+		fr.set(instr, fr.get(instr.Iter).(iter).next())
 
 	case *ssa.FieldAddr:
 		p := fr.get(instr.X).(*value)
 		if p == nil {
 			panic(goRuntimeError("runtime error: invalid memory address or nil pointer dereference"))
 		}
-		fr.env[instr] = &(*p).(structure)[instr.Field]
+		fr.set(instr, &(*p).(structure)[instr.Field])
 
 	case *ssa.Field:
-		fr.env[instr] = copyVal(fr.get(instr.X).(structure)[instr.Field])
+		fr.set(instr, copyVal(fr.get(instr.X).(structure)[instr.Field]))
 
 	case *ssa.IndexAddr:
 		x := fr.get(instr.X)
 		idx := fr.get(instr.Index)
 		switch x := x.(type) {
 		case []value:
-			fr.env[instr] = &x[checkIndex(idx, len(x), "slice")]
+			fr.set(instr, &x[checkIndex(idx, len(x), "slice")])
 		case *value: // *array
 			if x == nil {
 				panic(goRuntimeError("runtime error: invalid memory address or nil pointer dereference"))
 			}
 			a := (*x).(array)
-			fr.env[instr] = &a[checkIndex(idx, len(a), "array")]
+			fr.set(instr, &a[checkIndex(idx, len(a), "array")])
 		default:
 			panic(fmt.Sprintf("unexpected x type in IndexAddr: %T", x))
 		}
@@ -448,17 +452,17 @@ func visitInstr(fr *frame, instr ssa.Instruction) continuation {
 
 		switch x := x.(type) {
 		case array:
-			fr.env[instr] = copyVal(x[checkIndex(idx, len(x), "array")])
+			fr.set(instr, copyVal(x[checkIndex(idx, len(x), "array")]))
 		case string:
-			fr.env[instr] = x[checkIndex(idx, len(x), "string")]
+			fr.set(instr, x[checkIndex(idx, len(x), "string")])
 		case sstr:
-			fr.env[instr] = x.b[checkIndex(idx, len(x.b), "string")]
+			fr.set(instr, x.b[checkIndex(idx, len(x.b), "string")])
 		default:
 			panic(fmt.Sprintf("unexpected x type in Index: %T", x))
 		}
 
 	case *ssa.Lookup:
-		fr.env[instr] = lookup(instr, fr.get(instr.X), fr.get(instr.Index))
+		fr.set(instr, lookup(instr, fr.get(instr.X), fr.get(instr.Index)))
 
 	case *ssa.MapUpdate:
 		m := fr.get(instr.Map)
@@ -472,20 +476,20 @@ func visitInstr(fr *frame, instr ssa.Instruction) continuation {
 		}
 
 	case *ssa.TypeAssert:
-		fr.env[instr] = typeAssert(fr.i, instr, fr.get(instr.X).(iface))
+		fr.set(instr, typeAssert(fr.i, instr, fr.get(instr.X).(iface)))
 
 	case *ssa.MakeClosure:
 		var bindings []value
 		for _, binding := range instr.Bindings {
 			bindings = append(bindings, fr.get(binding))
 		}
-		fr.env[instr] = &closure{instr.Fn.(*ssa.Function), bindings}
+		fr.set(instr, &closure{instr.Fn.(*ssa.Function), bindings})
 
 	case *ssa.Phi:
 		panic("unreachable: phis are processed at block entry")
 
 	case *ssa.Select:
-		fr.env[instr] = doSelect(fr, instr)
+		fr.set(instr, doSelect(fr, instr))
 
 	default:
 		panic(fmt.Sprintf("unexpected instruction: %T", instr))
@@ -627,18 +631,20 @@ func callSSA(i *interpreter, caller *frame, callpos token.Pos, fn *ssa.Function,
 		}
 	}
 
-	fr.env = make(map[ssa.Value]value)
+	info := infoOf(fn)
+	fr.idx = info.idx
+	fr.env = make([]value, info.n)
 	fr.block = fn.Blocks[0]
 	fr.locals = make([]value, len(fn.Locals))
 	for i, l := range fn.Locals {
 		fr.locals[i] = zero(mustDeref(l.Type()))
-		fr.env[l] = &fr.locals[i]
+		fr.set(l, &fr.locals[i])
 	}
 	for i, p := range fn.Params {
-		fr.env[p] = args[i]
+		fr.set(p, args[i])
 	}
 	for i, fv := range fn.FreeVars {
-		fr.env[fv] = env[i]
+		fr.set(fv, env[i])
 	}
 	for fr.block != nil {
 		runFrame(fr)
@@ -737,7 +743,7 @@ func executePhis(fr *frame) []ssa.Instruction {
 			fr.phitemps = append(fr.phitemps, fr.get(phi.Edges[predIndex]))
 		}
 		for i, phi := range phis {
-			fr.env[phi.(*ssa.Phi)] = fr.phitemps[i]
+			fr.set(phi.(*ssa.Phi), fr.phitemps[i])
 		}
 	}
 	return nonPhis
@@ -799,4 +805,46 @@ func ensureBuilt(fn *ssa.Function) {
 	}
 	builtPkgs[pkg] = true
 	pkg.Build()
+}
+
+type fnInfo struct {
+	idx map[ssa.Value]int32
+	n   int
+}
+
+var fnInfos = map[*ssa.Function]*fnInfo{}
+
+func infoOf(fn *ssa.Function) *fnInfo {
+	if in, ok := fnInfos[fn]; ok {
+		return in
+	}
+	in := &fnInfo{idx: map[ssa.Value]int32{}}
+	add := func(v ssa.Value) {
+		if _, ok := in.idx[v]; !ok {
+			in.idx[v] = int32(in.n)
+			in.n++
+		}
+	}
+	for _, p := range fn.Params {
+		add(p)
+	}
+	for _, fv := range fn.FreeVars {
+		add(fv)
+	}
+	for _, l := range fn.Locals {
+		add(l)
+	}
+	for _, b := range fn.Blocks {
+		for _, instr := range b.Instrs {
+			if v, ok := instr.(ssa.Value); ok {
+				add(v)
+			}
+		}
+	}
+	fnInfos[fn] = in
+	return in
+}
+
+func (fr *frame) set(k ssa.Value, v value) {
+	fr.env[fr.idx[k]] = v
 }
